@@ -43,8 +43,8 @@ func (dn SuDnum) String() string {
 }
 
 func (dn SuDnum) Hash() uint64 {
-	if n, ok := dn.ToInt64(); ok && MinSuInt <= n && n <= MaxSuInt {
-		// must give the same hash as SuInt
+	if n, ok := dn.ToInt64(); ok {
+		// must give the same hash as SuInt and SuInt64
 		return uint64(n) * phi64
 	}
 	return dn.Dnum.Hash()
@@ -58,7 +58,10 @@ func (dn SuDnum) Equal(other any) bool {
 	if d2, ok := other.(SuDnum); ok {
 		return dnum.Equal(dn.Dnum, d2.Dnum)
 	} else if i, ok := SuIntToInt(other); ok {
-		return dnum.Equal(dn.Dnum, dnum.FromInt(int64(i)))
+		// must be exact, like smi.Equal and SuInt64.Equal
+		// (FromInt rounds integers of more than 16 digits)
+		n, ok := dn.ToInt64()
+		return ok && n == int64(i)
 	}
 	return false
 }
